@@ -137,10 +137,18 @@ impl World {
         let r = vcommon::guard(|| {
             settle(&det, |cx| match op {
                 "w" => Pin::new(&mut *io).poll_write(cx, &data),
+                // vectored write split into two slices (seeded mutant C14-2: the vectored path must flush pending
+                // negotiation frames first, exactly like poll_write)
+                "wv" => {
+                    let mid = data.len() / 2;
+                    let bufs = [std::io::IoSlice::new(&data[..mid]), std::io::IoSlice::new(&data[mid..])];
+                    Pin::new(&mut *io).poll_write_vectored(cx, &bufs)
+                }
                 "f" => Pin::new(&mut *io).poll_flush(cx).map_ok(|_| 0),
                 _ => Pin::new(&mut *io).poll_close(cx).map_ok(|_| 0),
             })
         });
+        let op = if op == "wv" { "w" } else { op }; // a vectored write is reported like a plain write
         match r {
             Ok(Some(Ok(n))) => {
                 if op == "w" {
@@ -179,6 +187,11 @@ fn run(out: &mut Out, sched: &Value) {
             x.write_chunk = wc;
         });
     }
+    if let Some(b) = sched.get("wbudget").and_then(|x| x.as_u64()) {
+        for d in 0..2 {
+            ctl.set_write_budget(d, Some(b as usize));
+        }
+    }
     let v = if ver == "V1Lazy" { Version::V1Lazy } else { Version::V1 };
     let dfut: Fut = Box::pin(dialer_select_proto(a, pd.clone(), v));
     let lfut: Fut = Box::pin(listener_select_proto(b, pl.clone()));
@@ -204,13 +217,19 @@ fn run(out: &mut Out, sched: &Value) {
             "dl" => {
                 w.deliver(vcommon::n(op, "d") as usize, vcommon::n(op, "n"), out);
             }
-            "dw" => w.wop(0, "w", len, out),
+            "dw" => w.wop(0, if op.get("vec").and_then(|x| x.as_bool()).unwrap_or(false) { "wv" } else { "w" }, len, out),
+            // grant write budget to direction d (back-pressured transport: the writer sees Pending until then)
+            "wb" => {
+                let d = vcommon::n(op, "d") as usize;
+                w.ctl.add_write_budget(d, vcommon::n(op, "n") as usize);
+                out.ev(json!({"e": "wb", "d": d}));
+            }
             "df" => w.wop(0, "f", 0, out),
             "dc" => w.wop(0, "c", 0, out),
             "dr" => {
                 w.read(0, max, out);
             }
-            "lw" => w.wop(1, "w", len, out),
+            "lw" => w.wop(1, if op.get("vec").and_then(|x| x.as_bool()).unwrap_or(false) { "wv" } else { "w" }, len, out),
             "lf" => w.wop(1, "f", 0, out),
             "lc" => w.wop(1, "c", 0, out),
             "lr" => {
@@ -222,6 +241,9 @@ fn run(out: &mut Out, sched: &Value) {
     // drain: both tasks run to completion, the wire delivers everything, both applications flush and
     // read whatever is there; finally both streams are dropped (EOF for a peer that still negotiates)
     out.ev(json!({"e": "drain"}));
+    for d in 0..2 {
+        w.ctl.set_write_budget(d, None);
+    }
     for phase in 0..2 {
         for _round in 0..500 {
             let mut progress = false;
@@ -301,18 +323,25 @@ fn exhaustive(out: &mut Out, maxlen: usize) {
     for ver in ["V1", "V1Lazy"] {
         for pd in &ls {
             for pl in &ls {
-                for style in 0..3 {
+                for style in 0..4 {
                     let mut ops = vec![];
                     // negotiation phase: alternate polls and deliveries
-                    let rounds = if style == 0 { 80 } else { 10 };
+                    // style 3: the transport accepts only a few bytes per round (write budget), so flushes return Pending;
+                    // the dialer's first application write is vectored
+                    let rounds = if style == 0 { 80 } else if style == 3 { 40 } else { 10 };
+                    let budget = [1u64, 2, 3, 7, 16, 24][(pd.len() + 2 * pl.len()) % 6];
                     for r in 0..rounds {
+                        if style == 3 {
+                            ops.push(json!({"a": "wb", "d": 0, "n": budget}));
+                            ops.push(json!({"a": "wb", "d": 1, "n": budget}));
+                        }
                         ops.push(op("pd"));
                         ops.push(dl(0, if style == 0 { 1 } else { -1 }));
                         ops.push(op("pl"));
                         ops.push(dl(1, if style == 0 { 1 } else if style == 1 { -1 } else { 3 }));
-                        if r == 2 && style == 2 {
+                        if r == 2 && style >= 2 {
                             // early application data on whatever stream exists already (lazy dialer!)
-                            ops.push(json!({"a": "dw", "len": 5}));
+                            ops.push(json!({"a": "dw", "len": 5, "vec": style == 3}));
                             ops.push(op("df"));
                         }
                     }
@@ -325,7 +354,11 @@ fn exhaustive(out: &mut Out, maxlen: usize) {
                     ops.push(dl(1, -1));
                     ops.push(json!({"a": "dr", "max": 2}));
                     ops.push(op("dc"));
-                    run(out, &json!({"ver": ver, "pd": pd, "pl": pl, "ops": ops}));
+                    let mut sc = json!({"ver": ver, "pd": pd, "pl": pl, "ops": ops});
+                    if style == 3 {
+                        sc["wbudget"] = json!(0);
+                    }
+                    run(out, &sc);
                 }
             }
         }
@@ -351,8 +384,8 @@ fn random(out: &mut Out, seed: u64, runs: u64) {
                     let k: i64 = if slow { [1, 1, 2, 3][rng.gen_range(0..4)] } else { [1, 2, 5, 19, 20, 21, -1][rng.gen_range(0..7)] };
                     ops.push(dl(rng.gen_range(0..2), k));
                 }
-                66..=73 => ops.push(json!({"a": "dw", "len": rng.gen_range(1..=8)})),
-                74..=79 => ops.push(json!({"a": "lw", "len": rng.gen_range(1..=8)})),
+                66..=73 => ops.push(json!({"a": "dw", "len": rng.gen_range(1..=8), "vec": rng.gen_bool(0.4)})),
+                74..=79 => ops.push(json!({"a": "lw", "len": rng.gen_range(1..=8), "vec": rng.gen_bool(0.4)})),
                 80..=84 => ops.push(op(["df", "lf"][rng.gen_range(0..2)])),
                 85..=90 => {
                     let mx = [1, 3, 64][rng.gen_range(0..3)];
@@ -368,7 +401,22 @@ fn random(out: &mut Out, seed: u64, runs: u64) {
         }
         let chunk = [0, 0, 1, 2][rng.gen_range(0..4)];
         let wchunk = [0, 0, 1, 3][rng.gen_range(0..4)];
-        run(out, &json!({"ver": ver, "pd": pd, "pl": pl, "chunk": chunk, "wchunk": wchunk, "ops": ops}));
+        let mut sc = json!({"ver": ver, "pd": pd, "pl": pl, "chunk": chunk, "wchunk": wchunk, "ops": ops});
+        if rng.gen_bool(0.35) {
+            // back-pressured transport: budget granted in small portions between the other ops
+            sc["wbudget"] = json!(rng.gen_range(0..=3));
+            let b = [1, 2, 3, 7, 16][rng.gen_range(0..5)];
+            let old: Vec<Value> = sc["ops"].as_array().unwrap().clone();
+            let mut neu = vec![];
+            for (i, o) in old.into_iter().enumerate() {
+                if i % 2 == 0 {
+                    neu.push(json!({"a": "wb", "d": i / 2 % 2, "n": b}));
+                }
+                neu.push(o);
+            }
+            sc["ops"] = Value::Array(neu);
+        }
+        run(out, &sc);
     }
 }
 
